@@ -694,3 +694,95 @@ def _map_extent_decisions(ex, st, post, result):
 
 
 _c['trace'] = list(_c['trace']) + [_map_extent_decisions]
+
+
+# ---- WMSServer.featureinfo: which layers are asked, what is collected, what is answered ---------------------------------------------
+def _fi_collect_layers(ex, st, k):
+    import z3
+    evs_ = st.trace[getattr(st, 'iter_start_trace', 0):]
+    il = [e for e in evs_ if e.name == 'info_layers_for_query']
+    layer = st.env['layer']
+    q = ex.truth(st, ex.opaque_field(st.iter_start_state, layer, 'queryable'))
+    ok = len(il) == 1 and il[0].recv is not None and il[0].recv.t.eq(layer.t) and il[0].args[-1] is st.env['query']
+    yield ('only_queryable_layers_are_asked', z3.And(z3.BoolVal(bool(ok)), q),
+           'a requested layer contributes its info layers (for this query) only if it is queryable')
+
+
+def _fi_not_queryable(ex, st, k, pre, exc):
+    import z3
+    layer = st.env['layer']
+    q = ex.truth(st, ex.opaque_field(pre, layer, 'queryable'))
+    yield ('not_queryable_is_refused', z3.Not(q), 'the request is refused (RequestError) in this loop only for a layer that is not queryable')
+
+
+def _fi_info_list_grows(ex, st, k):
+    import z3
+    evs_ = st.trace[getattr(st, 'iter_start_trace', 0):]
+    extd = [e for e in evs_ if e.name == 'extend']
+    l0 = st.iter_start_state.env['info_layers']
+    ok = len(extd) == 1 and len(evs_) == 1 and extd[0].args[-1] is st.env['layers'] and hasattr(l0, 't') and extd[0].recv.t.eq(l0.t)
+    yield ('permitted_info_layers_are_all_asked', z3.BoolVal(bool(ok)), 'every remaining entry adds its info layers to the list that is queried')
+
+
+def _fi_info_collected(ex, st, k):
+    import z3
+    evs_ = st.trace[getattr(st, 'iter_start_trace', 0):]
+    gi = [e for e in evs_ if e.name == 'get_info']
+    ap = [e for e in evs_ if e.name == 'append']
+    ok = len(gi) == 1 and gi[0].recv is not None and gi[0].recv.t.eq(st.env['layer'].t) and gi[0].args[-1] is st.env['query']
+    g = z3.BoolVal(bool(ok))
+    if ok:
+        r = gi[0].result
+        isnone = r.isnone if hasattr(r, 'isnone') else z3.BoolVal(type(r).__name__ == 'VNone')
+        got = z3.BoolVal(len(ap) == 1 and (ap[0].args[-1] is r or getattr(r, 'val', None) is ap[0].args[-1])
+                         and hasattr(st.iter_start_state.env['infos'], 't') and ap[0].recv.t.eq(st.iter_start_state.env['infos'].t))
+        g = z3.And(g, z3.If(isnone, z3.BoolVal(not ap), got))
+    yield ('every_answer_is_collected', g,
+           'each info layer is asked once with the query of the request; its answer is appended to the result list unless it is None')
+
+
+def _fi_answer(ex, st, post, result):
+    import z3
+    from pyvc.values import eq, VStr, VSeq
+    resp = [e for i, e in T.evs(st, 'Response')]
+    cd = [e for i, e in T.evs(st, 'combine_docs')]
+    mt = [e for i, e in T.evs(st, 'mimetype_from_infotype')]
+    if len(resp) != 1:
+        yield ('one_answer', z3.BoolVal(False), 'exactly one Response is built')
+        return
+    r = resp[0]
+    infos = st.env.get('infos')
+    if not cd:
+        empty = isinstance(r.args[0], VStr) and r.args[0].conc() == ''
+        g = z3.BoolVal(bool(empty and 'mimetype' in r.kwargs))
+        if infos is not None:
+            g = z3.And(g, z3.Not(ex.truth(st, infos)))
+        yield ('no_info_gives_empty_answer', g, 'without any feature info the answer is an empty document')
+        return
+    ok = len(cd) == 1 and cd[0].args[0] is infos and isinstance(cd[0].result, VSeq) and r.args[0] is cd[0].result.items[0] \
+        and 'mimetype' in r.kwargs
+    g = z3.BoolVal(bool(ok))
+    if ok:
+        g = z3.And(g, ex.truth(st, infos))
+        h = st.heap[post.env['self'].ref]
+        if len(cd[0].args) == 1:
+            # no transformers configured: the type is the one of the combined document
+            good = len(mt) == 1 and mt[0].args[1] is cd[0].result.items[1] and r.kwargs['mimetype'] is mt[0].result
+            g = z3.And(g, z3.BoolVal(bool(good)), z3.Not(ex.truth(st, h['fi_transformers'])))
+        else:
+            g = z3.And(g, ex.truth(st, h['fi_transformers']))
+    yield ('answer_is_the_combination_of_all_infos', g,
+           'the body is combine_docs(all collected infos[, the configured transformer])[0]; without transformers the declared '
+           'mimetype is the one belonging to the type of the combined document')
+
+
+_f = _REG.contracts[WMS + 'WMSServer.featureinfo']
+_f['opaque_fields'] = dict(_f['opaque_fields'], queryable='bool')
+_f['stable_fields'] = list(_f['stable_fields']) + ['queryable']
+_f['opaque_spec'] = dict(_f['opaque_spec'], get_info={'returns': 'opt[opaque]'}, mimetype_from_infotype={'pure': True},
+                         infotype_from_mimetype={'pure': True}, Response={'pure': True})
+_f['trace'] = list(_f.get('trace', [])) + [_fi_answer]
+_REG.loops[(WMS + 'WMSServer.featureinfo', 0)]['body_trace'] = [_fi_collect_layers]
+_REG.loops[(WMS + 'WMSServer.featureinfo', 0)]['raise_trace'] = [_fi_not_queryable]
+_REG.loops[(WMS + 'WMSServer.featureinfo', 2)]['body_trace'] = [_fi_info_list_grows]
+_REG.loops[(WMS + 'WMSServer.featureinfo', 3)]['body_trace'] = list(_REG.loops[(WMS + 'WMSServer.featureinfo', 3)]['body_trace']) + [_fi_info_collected]
